@@ -190,19 +190,27 @@ Qed.
 Lemma clean_uf : forall A (e : outcome A), clean e -> uf e.
 Proof. intros A e H f ->. exact H. Qed.
 
-Ltac uf_crush :=
-  repeat (first [ apply uf_ok | apply uf_err | apply uf_fuel | apply uf_fault; ufd | dmatch ]).
+(* destruct an innermost match scrutinee of the goal *)
+Ltac dm :=
+  match goal with
+  | |- context [match ?x with _ => _ end] =>
+      lazymatch x with
+      | context [match _ with _ => _ end] => fail
+      | _ => destruct x eqn:?
+      end
+  end.
+Ltac cl := repeat first [ dm | progress cbn [bind clean] ]; try exact I; try ufd.
 
 Lemma clean_h_get : forall h l, clean (h_get h l).
-Proof. intros; unfold h_get. repeat dmatch; cbn [clean]; try exact I; ufd. Qed.
+Proof. intros; unfold h_get. cl. Qed.
 Lemma clean_get_float : forall h l, clean (get_float h l).
-Proof. intros; unfold get_float, h_get. repeat dmatch; cbn [clean bind]; try exact I; ufd. Qed.
+Proof. intros; unfold get_float, h_get. cl. Qed.
 Lemma clean_get_str : forall h l, clean (get_str h l).
-Proof. intros; unfold get_str, h_get. repeat dmatch; cbn [clean bind]; try exact I; ufd. Qed.
+Proof. intros; unfold get_str, h_get. cl. Qed.
 Lemma clean_get_arr : forall h l, clean (get_arr h l).
-Proof. intros; unfold get_arr, h_get. repeat dmatch; cbn [clean bind]; try exact I; ufd. Qed.
+Proof. intros; unfold get_arr, h_get. cl. Qed.
 Lemma clean_h_set : forall h l o, clean (h_set h l o).
-Proof. intros; unfold h_set. repeat dmatch; cbn [clean]; try exact I; ufd. Qed.
+Proof. intros; unfold h_set. cl. Qed.
 
 (** ** Display and print: no unwrap (fuel CAN run out) *)
 
@@ -388,7 +396,7 @@ Proof.
     destruct (call_print orc h args) as [t| |f|] eqn:E; cbn [bind bpost]; try exact I.
     + split; [reflexivity|exact Hh].
     + apply Hp; reflexivity.
-    + split; reflexivity.
+    + split; [reflexivity|exact E].
   - apply rpost_wrap. unfold call_type, one_arg. destruct args as [|a [|? ?]]; try exact I.
     apply alloc_str_post; exact Hh.
   - apply rpost_wrap. unfold call_bool, one_arg. destruct args as [|a [|? ?]]; try exact I.
